@@ -28,6 +28,33 @@ fn gen_def(p: &mut Pool) -> OptSpec {
         let a = Spec::Alt(vec![cmd]);
         let id = p.id();
         fields.push(Spec::wrap(W::Optional { catch: false }, id, a));
+    } else if p.rng.chance(1, 8) {
+        // `[LEGACY] -- REST...`: an optional or repeated word for the left side only (sometimes
+        // hidden), then words for the right side only
+        let left = Spec::Item(p.pos_item(Strict::NonStrict));
+        let left = if p.rng.chance(1, 2) {
+            let id = p.id();
+            Spec::wrap(W::Hide, id, left)
+        } else {
+            left
+        };
+        let id = p.id();
+        fields.push(match p.rng.below(3) {
+            0 => Spec::wrap(W::Many { catch: false }, id, left),
+            1 => Spec::wrap(W::Fallback, id, left),
+            _ => Spec::wrap(W::Optional { catch: false }, id, left),
+        });
+        if p.rng.chance(1, 3) {
+            let mid = Spec::Item(p.pos_item(Strict::Any));
+            let id = p.id();
+            fields.push(Spec::wrap(W::Optional { catch: false }, id, mid));
+        }
+        let right = Spec::Item(p.pos_item(Strict::Strict));
+        let id = p.id();
+        fields.push(match p.rng.below(3) {
+            0 => Spec::wrap(W::Optional { catch: false }, id, right),
+            _ => Spec::wrap(W::Many { catch: false }, id, right),
+        });
     } else {
         fields.extend(p.positionals(3));
     }
@@ -82,12 +109,19 @@ pub fn run_case(case: &mut Case) {
     o.decor = false;
     o.strict = true;
     o.any_after_strict = true;
+    o.hidden_positionals = true;
     o.types = vec![Ty::Str, Ty::Os, Ty::Str, Ty::U32, Ty::Path];
     let spec = {
         let mut p = Pool::new(&mut rng, o);
         gen_def(&mut p)
     };
     let b = Bench::new(case, spec);
+    if b.spec.pretty().contains(".hide()") {
+        case.rep.count("definitions-with-a-hidden-positional");
+    }
+    if b.spec.pretty().contains(".non_strict().hide()") {
+        case.rep.count("definitions-with-a-hidden-non-strict-positional");
+    }
     let n_der = if case.thorough { 30 } else { 12 };
     for di in 0..n_der {
         let mut g = Gen::new(&mut rng);
@@ -142,6 +176,9 @@ pub fn run_case(case: &mut Case) {
             "sentence-with-separator"
         };
         case.rep.add("hostile_words", hostile);
+        if has_dd && b.spec.pretty().contains(".non_strict().hide()") {
+            case.rep.count("lines-with-separator-for-a-hidden-left-side-word");
+        }
         if !b.expect_value(case, &line.argv, &d.value, class, "separator") {
             continue;
         }
@@ -235,7 +272,28 @@ pub fn run_case(case: &mut Case) {
                     }
                     _ => false,
                 });
-                if !dashy {
+                // a word for the left side that repeats, or that is absent from the line, takes
+                // the moved word: the line is a different sentence then
+                let left_open = {
+                    let mut items = Vec::new();
+                    b.spec.root.all_items(&mut items);
+                    items.iter().any(|i| match &i.leaf {
+                        Leaf::Pos { strict, .. } if *strict != Strict::Strict => {
+                            let repeats = b.spec.root.path_to(i.id).map_or(false, |p| {
+                                p.iter().any(|e| matches!(e, PathEl::Wrap(w, _) if w.repeats()))
+                            });
+                            let on_line = units.iter().any(
+                                |u| matches!(&u.kind, UKind::Word { item, .. } if *item == i.id),
+                            );
+                            repeats || !on_line
+                        }
+                        _ => false,
+                    })
+                };
+                if left_open {
+                    case.rep.count("skipped:left-side-word-takes-the-moved-strict-word");
+                }
+                if !dashy && !left_open {
                     let mline = render(&m, &mut rng, SpellStyle::Canonical);
                     b.expect_stderr(
                         case,
